@@ -29,3 +29,10 @@ add("C09", "E1 ctxmachine", "model_checking",
     "For every structure T (and pairs S,T) of depth<=1 bound by a real first check, every candidate tree of depth<=2 (thorough: all 27k; quick: strided plus everything derived from T by composition/mutation) is checked against all forms T, 'T ...', '... T', 'S T', 'T S', 'T T', 'S T ...', '... S T'; verdicts must equal the reference algebra (equality, composition, prefix, suffix = exists O. O∘T = X), unbound names in composites must raise AnnotationError, nothing may change the context; every structure string of <=3 pieces must build or raise ValueError exactly as the grammar says.",
     "Don't-care: '...' alone or at both ends, non-string structures, a name first used on a top-level None (accepted without binding, per C08).",
     "DESIGN.md §6 C09")
+
+ENGINES[0]["serves_properties"] += ["C16"]
+add("C16", "E1 ctxmachine", "model_checking",
+    "explicit-state exploration of check sequences in one context against a reference keyed by (structure name, leaf index, axis name)",
+    "Every sequence of 2-3 trees over 4 skeletons (1-3 leaf positions) with every assignment of sizes {2,3} to every array position is checked in one real context against PyTree[L,'T'], PyTree[L] and bare L for 8 leaf types containing '?n' / '*?v' (alone, in unions, tuples, structure-less and structured inner PyTrees), with a plain axis n bound at every point of the sequence; every verdict incl. AnnotationError is compared with the reference.",
+    "For leaf types that are themselves PyTrees the statements do not settle which subtree counts as a leaf: there only 'never AnnotationError beneath exactly one structured PyTree' / 'AnnotationError beneath none or two' is asserted, except on single-leaf trees where the reference is sharp.",
+    "DESIGN.md §6 C16")
